@@ -375,9 +375,10 @@ func (g *gen) pred(depth int) string {
 		n := 1 + r.Intn(3)
 		items := make([]string, n)
 		for i := range items {
-			items[i] = g.val(ci, false)
 			if r.Chance(1, 10) {
 				items[i] = g.emitNull()
+			} else {
+				items[i] = g.val(ci, false)
 			}
 		}
 		not := ""
